@@ -99,6 +99,9 @@ func (w *world) nextAct(id int) (int, Act, bool) {
 }
 
 func (w *world) complain(format string, a ...any) {
+	if w.c.Excluded && strings.Contains(format, "response not read") {
+		return // the probe gave up at its deadline before the late answer
+	}
 	w.mu.Lock()
 	if len(w.bad) < 5 {
 		w.bad = append(w.bad, fmt.Sprintf(format, a...))
